@@ -148,8 +148,15 @@ func genC02(w *World, res *CheckResult) {
 			st.Store(LocField(rn, lay.off("IntegerNode", "Value")), b)
 			st.Store(LocField(ln, 2), lt.code)
 			st.Store(LocField(rn, 2), lt.code)
-			// the checker gives op(T, T) the type T (combined) for + - * / %
-			st.Store(LocField(bn, 2), lt.code)
+			// the checker retypes the literals under + - * / of an argument (setTypeForIntegers) but leaves the
+			// operation node's own static type as first computed: it is arbitrary here. % and ** are never
+			// retyped: their node keeps the type computed from the literals.
+			switch op.op {
+			case "+", "-", "*", "/":
+				st.Store(LocField(bn, 2), Fresh("bintype", SInt))
+			default:
+				st.Store(LocField(bn, 2), lt.code)
+			}
 			// fold.err starts nil, applied false
 			fst := foldFn.Params[0].Type().Underlying().(*types.Pointer).Elem().Underlying().(*types.Struct)
 			errOff := fieldLeafOffset(fst, 1)
@@ -229,6 +236,8 @@ func genC02(w *World, res *CheckResult) {
 		}
 	}
 	genInRange(w, res)
+	genInArray(w, res)
+	verifyInit(w, res, "optimizer")
 	res.Assumptions = append(res.Assumptions,
 		"scope of this check: the constant-folding rewrite of binary arithmetic on two integer literals carrying the same static type (the checker retypes all literals of an argument together); the in-range rewrite (shape, type guard, single evaluation of the left operand); array folding, in-array, constant ranges and constant-expression calls are not under contract yet (see DESIGN.md)",
 		"math.Pow is an uninterpreted function applied to identical arguments on both sides")
@@ -242,12 +251,29 @@ func init() {
 // c02Replay: compiles F(a op b), F taking the literal type of the cell, with
 // the optimizer on and off, and compares the results on the real library.
 func c02Replay(o *Obligation, dir string) (string, bool) {
-	if strings.HasPrefix(o.Name, "optimizer.inRange[") {
+	if strings.HasPrefix(o.Name, "optimizer.inRange[") || strings.HasPrefix(o.Name, "optimizer.inArray[") {
 		neg := ""
 		if strings.Contains(o.Name, "[not-in]") {
 			neg = "not "
 		}
-		src := fmt.Sprintf(`package expr_test
+		var codes []string
+		switch {
+		case strings.HasPrefix(o.Name, "optimizer.inArray["):
+			for _, c := range []string{"NI %sin [1, 2, 3]", "NS %sin ['a', 'b']", "I %sin ['a', 'b']", "S %sin [1, 2]", "Fl %sin [1, 2]", "A %sin ['a', 'b']", "A %sin [1, 2]", "I %sin [1, 2]", "S %sin ['x', 'y']"} {
+				codes = append(codes, fmt.Sprintf(c, neg))
+			}
+		case strings.HasSuffix(o.Name, "left-evaluated-once"):
+			codes = append(codes, fmt.Sprintf("f() %sin 1..3", neg))
+		default:
+			for _, c := range []string{"Fl %sin 1..3", "S %sin 1..3", "NI %sin 1..3", "A %sin 1..3", "I %sin 1..3"} {
+				codes = append(codes, fmt.Sprintf(c, neg))
+			}
+		}
+		var quoted []string
+		for _, c := range codes {
+			quoted = append(quoted, fmt.Sprintf("%q", c))
+		}
+		src := `package expr_test
 
 import (
 	"fmt"
@@ -256,11 +282,14 @@ import (
 	"github.com/antonmedv/expr"
 )
 
-// replay of obligation %%s
+type verifNI int
+type verifNS string
+
+// replay of obligation ` + o.Name + `
 func TestVerifReplay(t *testing.T) {
 	calls := 0
-	env := map[string]interface{}{"Fl": 2.5, "S": "x", "f": func() int { calls++; return 2 }}
-	for _, code := range []string{"Fl %sin 1..3", "S %sin 1..3", "f() %sin 1..3"} {
+	env := map[string]interface{}{"Fl": 2.5, "S": "x", "I": 2, "NI": verifNI(2), "NS": verifNS("a"), "A": interface{}(2), "f": func() int { calls++; return 2 }}
+	for _, code := range []string{` + strings.Join(quoted, ", ") + `} {
 		run := func(opt bool) string {
 			calls = 0
 			p, err := expr.Compile(code, expr.Env(env), expr.Optimize(opt))
@@ -271,17 +300,16 @@ func TestVerifReplay(t *testing.T) {
 			if err != nil {
 				return "run error"
 			}
-			return fmt.Sprintf("%%%%v after %%%%d call(s)", out, calls)
+			return fmt.Sprintf("%v after %d call(s)", out, calls)
 		}
 		on, off := run(true), run(false)
 		if on != off {
-			t.Fatalf("VIOLATED: %%%%s gives %%%%q with the optimizer and %%%%q without", code, on, off)
+			t.Fatalf("VIOLATED: %s gives %q with the optimizer and %q without", code, on, off)
 		}
 	}
 	t.Logf("clause holds on these inputs")
 }
-`, neg, neg, neg)
-		src = fmt.Sprintf(src, o.Name)
+`
 		return runReplay(o, dir, ".", src)
 	}
 	op, typ := o.Meta["op"], o.Meta["type"]
@@ -360,6 +388,7 @@ func genInRange(w *World, res *CheckResult) {
 		slot := e.havocValue(st, fn.Params[1].Type(), "node")
 		e.paramMode = false
 		st.Assume(Not(Eq(slot.One(), NilLoc)))
+		e.initFacts(st, fn, e.entryEnv(st, fn, []*Value{rv, slot}, nil))
 		bn, rg, fa, ta := FreshPre(st, "bin"), FreshPre(st, "range"), FreshPre(st, "from"), FreshPre(st, "to")
 		objs := []*Term{bn, rg, fa, ta, slot.One()}
 		for i := range objs {
@@ -409,7 +438,7 @@ func genInRange(w *World, res *CheckResult) {
 			e.AddVC(name+"/post:shape", "post", fn.String(), s, Not(shape), "L in a..b becomes (L >= a) and (L <= b), wrapped in not for 'not in'")
 			// the two-sided comparison equals membership only for an int left operand (C18 lemma): the rewrite needs that guard
 			lt := UF("node_type", SInt, L)
-			e.AddVC(name+"/post:int-guard", "post", fn.String(), s, Not(Or(Eq(lt, IntLit(0)), Eq(rtKind(lt), BV64(2)))), "the rewrite fires only when the left operand is statically an int (or the tree carries no types at all: optimizer called on an unchecked tree)")
+			e.AddVC(name+"/post:int-guard", "post", fn.String(), s, Not(Or(Eq(lt, IntLit(0)), Eq(lt, typeCodeTerm(types.Typ[types.Int])))), "the rewrite fires only when the left operand is statically exactly int (or the tree carries no types at all: optimizer called on an unchecked tree)")
 			// the left operand occurs twice in the replacement: it is evaluated twice
 			e.AddVC(name+"/post:left-evaluated-once", "post", fn.String(), s, Eq(fld(lp, "Left", SVal), fld(rp, "Left", SVal)), "the left operand is evaluated once, as in the original expression")
 		}
